@@ -721,6 +721,32 @@ fn absurd_cases() -> Vec<AbsurdCase> {
             v.push(AbsurdCase { content: format!("#SHAPE=<{h}>\n{body}").into_bytes(), name: "abs.sfs".into() });
         }
     }
+    // every tuple of up to three axis lengths over small and extreme values: an empty axis next to
+    // lengths whose product (or whose strides) overflow, in every position
+    let tokens = ["0", "1", "2", "3", "4294967296", "9223372036854775808", "18446744073709551615"];
+    let mut tuples: Vec<Vec<&str>> = Vec::new();
+    for a in tokens {
+        tuples.push(vec![a]);
+        for b in tokens {
+            tuples.push(vec![a, b]);
+            for c in tokens {
+                tuples.push(vec![a, b, c]);
+            }
+        }
+    }
+    for t in &tuples {
+        for body in ["\n", "1 2\n", "1 2 3 4\n"] {
+            v.push(AbsurdCase { content: format!("#SHAPE=<{}>\n{body}", t.join("/")).into_bytes(), name: "abs.sfs".into() });
+        }
+    }
+    for t in tuples.iter().filter(|t| t.iter().all(|x| *x != "3" && *x != "9223372036854775808")) {
+        let dict = format!("{{'descr': '<f8', 'fortran_order': False, 'shape': ({}{}), }}", t.join(", "), if t.len() == 1 { "," } else { "" });
+        for data in [0usize, 16, 32] {
+            let mut bytes = crate::model::npy::wrap_header(&dict, 1, 64);
+            bytes.extend(vec![0u8; data]);
+            v.push(AbsurdCase { content: bytes, name: "abs.npy".into() });
+        }
+    }
     for extra in ["#SHAPE=<2>", "#SHAPE=<2>\n", "#SHAPE=<2>\n1", "#SHAPE=<2>\n1 2 3", "#SHAPE", "#SHAPE=", "#SHAPE=<", "#SHAPE=<2", "#SHAPE=2\n1 2\n", "#SHAPE=<2>\n1 x\n", "#SHAPE=<2>\n1\n2\n", "#SHAPE=<2>\r\n1 2\r\n", "#SHAPE=<\u{0662}>\n1 2\n", "#SHAPE=<2>\n\u{0661} \u{0662}\n"] {
         v.push(AbsurdCase { content: extra.as_bytes().to_vec(), name: "abs.sfs".into() });
     }
@@ -928,7 +954,7 @@ pub fn check(ctx: &Ctx) -> Check {
         }),
         Box::new(EnumPart {
             name: "absurd-shapes",
-            rule: "text headers declaring 0-length axes, products beyond 2^64, 40 axes, malformed headers; npy dicts with 0 / huge / empty / duplicate shapes, header lengths 0 .. 2^32-1, unknown versions; each through 10 view/fold/stat commands",
+            rule: "text headers declaring 0-length axes, products beyond 2^64, 40 axes, malformed headers; every tuple of <=3 axis lengths over {0,1,2,3,2^32,2^63,2^64-1} in text (399 x 3 bodies) and over {0,1,2,2^32,2^64-1} in npy (155 x 3 data lengths); npy dicts with 0 / huge / empty / duplicate shapes, header lengths 0 .. 2^32-1, unknown versions; each through 10 view/fold/stat commands",
             exhaustive: true,
             cases: Box::new(|_| absurd_cases()),
             eval: Box::new(eval_absurd),
